@@ -11,6 +11,7 @@ package vfpkg
 // to that content is predicted by the model and compared after every step.
 
 import (
+	"sync"
 	"bytes"
 	"encoding/hex"
 	"encoding/json"
@@ -37,6 +38,7 @@ type c10Origin struct {
 type c10World struct {
 	ccache    SessionCache
 	cliSuites []uint16
+	cliName   string // the client's ServerName: the certificates' name, or an IP literal they do not cover
 	srv       [3]*c10Server
 	seen      map[string]bool       // every session id a ServerHello has carried as a new session
 	failed    map[string]bool       // session ids whose handshake ended in a fatal error at the client
@@ -59,19 +61,47 @@ func c10Peek(cache SessionCache, key string) *SessionState {
 	return nil
 }
 
+// vfPtrCache: an application-supplied SessionCache. SessionState has no exported fields, so such a
+// cache can only keep the object it is handed.
+type vfPtrCache struct {
+	mu sync.Mutex
+	m  map[string]*SessionState
+}
+
+func (c *vfPtrCache) Get(k string) (*SessionState, bool) {
+	c.mu.Lock()
+	defer c.mu.Unlock()
+	s, ok := c.m[k]
+	return s, ok
+}
+
+func (c *vfPtrCache) Put(k string, s *SessionState) {
+	c.mu.Lock()
+	defer c.mu.Unlock()
+	if s == nil {
+		delete(c.m, k)
+		return
+	}
+	c.m[k] = s
+}
+
+var c10Names = []string{vfServerName, "10.9.9.9", "[::1]"}
+
 var c10SuiteSets = [][]uint16{{ECC_SM4_GCM_SM3}, {ECC_SM4_CBC_SM3}, {ECC_SM4_GCM_SM3, ECC_SM4_CBC_SM3}, {ECDHE_SM4_GCM_SM3, ECC_SM4_CBC_SM3}}
 
 func c10New() *c10World {
-	w := &c10World{ccache: NewLRUSessionCache(6), cliSuites: c10SuiteSets[2], seen: map[string]bool{}, failed: map[string]bool{}, origin: map[string]*c10Origin{}}
+	w := &c10World{ccache: NewLRUSessionCache(6), cliSuites: c10SuiteSets[2], cliName: vfServerName, seen: map[string]bool{}, failed: map[string]bool{}, origin: map[string]*c10Origin{}}
 	for i := range w.srv {
 		w.srv[i] = &c10Server{addr: fmt.Sprintf("10.0.%d.2:2000", i+1), cache: NewLRUSessionCache(64), suites: c10SuiteSets[2]}
 	}
+	// the third server keeps its sessions in an application-supplied cache that stores what it is given
+	w.srv[2].cache = &vfPtrCache{m: map[string]*SessionState{}}
 	return w
 }
 
 func (w *c10World) configs(i int) (*Config, *Config) {
 	p := vfGetPKI()
-	ccfg := &Config{Time: vfTime, RootCAs: p.A.pool, ServerName: vfServerName, CipherSuites: w.cliSuites, SessionCache: w.ccache,
+	ccfg := &Config{Time: vfTime, RootCAs: p.A.pool, ServerName: w.cliName, CipherSuites: w.cliSuites, SessionCache: w.ccache,
 		Certificates: []Certificate{p.CliSig, p.CliEnc}}
 	scfg := &Config{Time: vfTime, Certificates: []Certificate{p.SrvSig, p.SrvEnc}, CipherSuites: w.srv[i].suites, SessionCache: w.srv[i].cache, ClientCAs: p.A.pool}
 	return ccfg, scfg
@@ -126,6 +156,26 @@ func (w *c10World) connect(i int, fault *c03Edit) (sig, msg string) {
 	var srvHas *SessionState
 	if offered != nil {
 		srvHas = c10Peek(s.cache, hex.EncodeToString(offered))
+	}
+	if w.cliName != vfServerName {
+		// the client now verifies a name the server's certificates do not cover: no connection may
+		// complete, resumed or not
+		r := vfRunPair(ccfg, scfg, vfPairOpt{SrvAddr: s.addr})
+		w.log = append(w.log, fmt.Sprintf("connect(%d) as %q offered=%x -> cerr=%v resumed=%v", i, w.cliName, offered, r.CErr, r.CS.DidResume))
+		if r.CPanic != "" || r.SPanic != "" {
+			return "panic", r.CPanic + r.SPanic
+		}
+		if r.CErr == nil {
+			return "resumed-under-uncovered-name", fmt.Sprintf("the client verifies the server name %q, which the server's certificates do not cover, and completed (resumed=%v, offered session %x)", w.cliName, r.CS.DidResume, offered)
+		}
+		if chSid, shSid, _, _, ok := c10Hellos(r); ok {
+			for _, id := range [][]byte{chSid, shSid} {
+				if len(id) > 0 {
+					w.failed[string(id)] = true
+				}
+			}
+		}
+		return "", ""
 	}
 	full := c10Negotiate(w.cliSuites, s.suites)
 	predictResume := held != nil && srvHas != nil && srvHas.vers == VersionTLCP &&
@@ -343,6 +393,9 @@ func c10Exec(actions []c10Action) (sig, msg string, attemptAfter bool, log []str
 		case "cli-suites":
 			w.cliSuites = c10SuiteSets[a.Set%len(c10SuiteSets)]
 			perturbed = true
+		case "cli-name":
+			w.cliName = c10Names[a.Set%len(c10Names)]
+			perturbed = true
 		case "forged":
 			id := a.ID
 			if a.Stale {
@@ -378,13 +431,13 @@ func c10Exec(actions []c10Action) (sig, msg string, attemptAfter bool, log []str
 func TestVF_C10(t *testing.T) {
 	rec := vfRec("C10", "C10-resumption", "rapid-generated histories over the actions connect(i), connect through a corrupting man-in-the-middle (flip in a chosen record of either direction), server cache loss, server / client suite reconfiguration, connection with a forged or stale identifier (scripted client), client cache pressure; three servers with their own addresses, caches and suite sets; after every step the model (what the real caches hold, read without touching recency) predicts resumed / full / failed and what the hellos carry; non-trivial = history with a resumption attempt after at least one perturbation; distinct = hash of the action list")
 	actGen := rapid.Custom(func(t *rapid.T) c10Action {
-		a := c10Action{Kind: rapid.SampledFrom([]string{"connect", "connect", "connect", "connect", "fault", "loss", "srv-suites", "cli-suites", "forged", "pressure"}).Draw(t, "action"),
+		a := c10Action{Kind: rapid.SampledFrom([]string{"connect", "connect", "connect", "connect", "fault", "loss", "srv-suites", "cli-suites", "cli-name", "forged", "pressure"}).Draw(t, "action"),
 			Server: rapid.IntRange(0, 2).Draw(t, "server")}
 		switch a.Kind {
 		case "fault":
 			a.Edit = &c03Edit{Kind: "flip", Dir: rapid.IntRange(0, 1).Draw(t, "dir"), Rec: rapid.IntRange(0, 6).Draw(t, "rec"),
 				Off: rapid.SampledFrom([]int{vfRecHdrLen, vfRecHdrLen + 1, vfRecHdrLen + vfHSHdrLen + 3, vfRecHdrLen + 20}).Draw(t, "off"), Mask: 0x55}
-		case "srv-suites", "cli-suites":
+		case "srv-suites", "cli-suites", "cli-name":
 			a.Set = rapid.IntRange(0, len(c10SuiteSets)-1).Draw(t, "set")
 		case "forged":
 			a.Stale = rapid.Bool().Draw(t, "stale")
